@@ -117,6 +117,12 @@ class LexModel:
             if res[0] == 'call':
                 return self._fold_regex_expr(res[1], res[2])
             raise AnalysisError(f'{fn.id}(...) does not return a compiled pattern')
+        # NAME = functools.partial(re.compile, flags=...)  used as NAME(pattern)
+        if isinstance(fn, ast.Name) and fn.id in self.module.constants:
+            c = self.module.constants[fn.id]
+            if isinstance(c, ast.Call) and norm(c.func) in ('functools.partial', 'partial') and c.args and norm(c.args[0]) == 're.compile':
+                call = ast.Call(func=c.args[0], args=list(c.args[1:]) + list(expr.args), keywords=list(c.keywords) + list(expr.keywords))
+                return self._fold_regex_expr(call, env)
         raise AnalysisError(f'pattern constant built by an unknown callable: {norm(fn)}')
 
     # -- spec side -------------------------------------------------------------------------
